@@ -11,6 +11,9 @@ API (import from a plugin props/cNN.py)
   describe(case, obs) -> [str]             histogram keys (input distribution)
   nontrivial(case, obs) -> bool            at least one same-instant coincidence of >= 3 processed events
   COQ_IMPORTS                              lines for Prop.coq_imports
+  (Coq side, Kernel/Script.v: `agree` / `model_run` / `run_plan` use the repaired kernel; `agree_sel false`, `model_run_sel false`,
+   `run_plan_sel false` run the kernel as found before the C03 fix: commit -- replace "agree " by "agree_sel false " in agree_term's
+   result to compare a trace recorded on the unrepaired code)
   basic_monitor(case, obs) -> [str]        harness sanity (unknown exception classes, aborted runs)
   steps_of(obs), klog_of(obs)              helpers for monitors (see below)
 
